@@ -231,10 +231,10 @@ def count_roles(ctx, m, sc):
         if vec == IDENT:
             vec = {}
         per_path.append((member, vec))
-    comps = sorted(set(k for _, vec in per_path for k in vec))
+    comps = sorted(set(k for _, vec in per_path for k in vec if k != "__partial__"))
     roles = {}
     for c in comps:
-        incs = [(mem, vec.get(c)) for mem, vec in per_path]
+        incs = [(mem, vec.get(c) if (c in vec or not vec.get("__partial__")) else (c, 0)) for mem, vec in per_path]
         if any(v is None or v[0] != c for _, v in incs):
             return None, "component %s does not accumulate itself" % c
         if all(v[1] == 1 for _, v in incs):
@@ -274,6 +274,16 @@ def count_scalar(x, argn):
 def agg_vector(e, argn):
     """{component: (source component of parameter argn, +k)} for a record built field by field, or None."""
     e = peel(e)
+    if e[0] == "upd":
+        # in-place update of one field of a record: the other components are those of the base
+        base = IDENT_VEC if peel(e[1]) == ("arg", argn) else agg_vector(e[1], argn)
+        sv = count_scalar(e[4], argn)
+        if base is None or sv is None:
+            return None
+        out = dict(base) if base is not IDENT_VEC else {}
+        out[e[2] or str(e[3])] = sv
+        out["__partial__"] = base is IDENT_VEC or out.get("__partial__", False)
+        return out
     if e[0] != "agg" or e[1] == "array" or (isinstance(e[1], dict) and e[1].get("closure")):
         return None
     names = agg_fields(e)
@@ -287,18 +297,34 @@ def agg_vector(e, argn):
 
 
 def compose(outer, inner):
+    """outer after inner.  A vector marked `__partial__` leaves the components it does not mention unchanged."""
     if inner == IDENT:
         return dict(outer)
+    o_partial = bool(outer.get("__partial__"))
+    i_partial = bool(inner.get("__partial__"))
     res = {}
-    for c, (srcc, k) in outer.items():
-        if srcc not in inner:
+    comps = set(k for k in outer if k != "__partial__") | (set(k for k in inner if k != "__partial__") if o_partial else set())
+    for c in comps:
+        if c in outer:
+            srcc, k = outer[c]
+        elif o_partial:
+            srcc, k = c, 0
+        else:
+            continue
+        if srcc in inner and srcc != "__partial__":
+            s2, k2 = inner[srcc]
+        elif i_partial:
+            s2, k2 = srcc, 0
+        else:
             return None
-        s2, k2 = inner[srcc]
         res[c] = (s2, k + k2)
+    if o_partial and i_partial:
+        res["__partial__"] = True
     return res
 
 
 IDENT = "IDENT"
+IDENT_VEC = "IDENT_VEC"
 
 
 def count_vector(db, fn, e, depth):
